@@ -59,6 +59,65 @@ theorem scanFwd_getElem {β γ : Type} (f : Option β → γ → β) (ps : List 
     have hk : ps[i].toNat < i := by omega
     rw [List.getElem?_append_left (by omega)]
 
+theorem forall₂_length {β β' : Type} {R : β → β' → Prop} {l : List β} {l' : List β'}
+    (h : List.Forall₂ R l l') : l.length = l'.length := by
+  induction h with
+  | nil => rfl
+  | cons _ _ ih => simp [ih]
+
+/-- **Simulation lemma, well-formed version**: as `scanFwd_rel`, but for parents preceding
+children the step hypothesis may also assume that a link with a parent index `p ≥ 0` really
+receives its parent's result (`par ≠ none`). -/
+theorem scanFwd_rel_wf {β β' γ γ' : Type} (R : β → β' → Prop) (S : Int → γ → γ' → Prop)
+    (f : Option β → γ → β) (g : Option β' → γ' → β')
+    (hstep : ∀ p par par' a b, OptRel R par par' → S p a b → (p < 0 ↔ par = none) →
+      R (f par a) (g par' b))
+    (ps : List Int) (as : List γ) (bs : List γ') (hwf : ParentsWF ps)
+    (hS : List.Forall₂ (fun (x : Int × γ) (y : Int × γ') => x.1 = y.1 ∧ S x.1 x.2 y.2)
+      (ps.zip as) (ps.zip bs)) :
+    List.Forall₂ R (scanFwd f ps as) (scanFwd g ps bs) := by
+  rw [scanFwd_eq, scanFwd_eq]
+  have hidx0 : ∀ (k : Nat) (hk : k < (ps.zip as).length), ((ps.zip as)[k]).1 < (([] : List β).length + k : Int) := by
+    intro k hk
+    have hk2 : k < ps.length := by simp at hk; omega
+    have := hwf k hk2
+    simp only [List.getElem_zip, List.length_nil]
+    omega
+  suffices H : ∀ (l : List (Int × γ)) (l' : List (Int × γ')) (acc : List β) (acc' : List β'),
+      List.Forall₂ (fun (x : Int × γ) (y : Int × γ') => x.1 = y.1 ∧ S x.1 x.2 y.2) l l' →
+      List.Forall₂ R acc acc' →
+      (∀ (k : Nat) (hk : k < l.length), (l[k]).1 < (acc.length + k : Int)) →
+      List.Forall₂ R (l.foldl (scanStep f) acc) (l'.foldl (scanStep g) acc') from
+    H _ _ [] [] hS List.Forall₂.nil hidx0
+  intro l l' acc acc' hl
+  induction hl generalizing acc acc' with
+  | nil => intro h _; simpa using h
+  | @cons x y xs ys hxy _ ih =>
+    intro hacc hidx
+    simp only [List.foldl]
+    obtain ⟨hp, hs⟩ := hxy
+    have hx0 := hidx 0 (by simp)
+    simp only [List.getElem_cons_zero] at hx0
+    have hx0 : x.1 < (acc.length : Int) := by omega
+    apply ih
+    · unfold scanStep
+      apply forall₂_append_singleton hacc
+      rw [← hp]
+      by_cases hneg : x.1 < 0
+      · simp only [hneg, if_true]
+        exact hstep x.1 none none x.2 y.2 OptRel.none hs ⟨fun _ => rfl, fun _ => hneg⟩
+      · simp only [hneg, if_false]
+        have hlt : x.1.toNat < acc.length := by omega
+        have hsome : acc[x.1.toNat]? ≠ none := by
+          rw [List.getElem?_eq_getElem hlt]; simp
+        exact hstep x.1 _ _ x.2 y.2 (getElem?_optRel hacc _) hs
+          ⟨fun h => absurd h hneg, fun h => absurd h hsome⟩
+    · intro k hk
+      have := hidx (k + 1) (by simp; omega)
+      simp only [List.getElem_cons_succ] at this
+      simp only [scanStep, List.length_append, List.length_cons, List.length_nil]
+      omega
+
 /-- results of the forward scan on a prefix do not depend on later links -/
 theorem scanFwd_append {β γ : Type} (f : Option β → γ → β) (ps1 ps2 : List Int) (as1 as2 : List γ)
     (h1 : ps1.length = as1.length) :
